@@ -143,6 +143,19 @@ def scenario(v, wd, name, kinds, thorough, out):
                 time.sleep(0.15)
                 for _ in range(3):
                     probe(k, "recovered-2")
+            if quic:
+                # ---- outage 3 (QUIC): long enough for the connector to notice, to try a new connection and to see that attempt
+                # run into its own timeout while the upstream is still away; once the upstream is back the next request
+                # finds nothing cached, nothing retrying - and must simply work
+                w.down(k, "kill")
+                for t in ts:
+                    tcheck(t, k, IDLE_S + 4)
+                probe(k, "down-nocache", timeout=2.0)
+                time.sleep(33.0)
+                w.back(k, "kill")
+                time.sleep(1.0)
+                for _ in range(3):
+                    probe(k, "recovered-2")
             if k == "lb":
                 # the OTHER member has its outage later, long enough for a balancer that keeps score to notice; when both
                 # members are back every request must be served again (nothing remembered from past failures)
